@@ -36,6 +36,7 @@ def make_run(cfg):
             cuts = CUTS if cfg.get("all_cuts") else CUTS[1:4] + ["last"]
             menu_reply = ["deliver", "lost", "reset-before", "reset-after", "stale", "seq+1", "dup"] + ["cut:" + c for c in cuts]
             menu_oneway = ["deliver", "reset-before", "reset-after"]
+            menu_handshake = ["deliver", "lost", "reset", "cut:10"]
 
             def reset_pair(csock):
                 csock.reset = True
@@ -76,6 +77,23 @@ def make_run(cfg):
                     state["pending"][sock.peer.fd] = f
                     return data
                 # server -> client
+                if mtype == protocol.MSG_CONNECTOK:
+                    # the answer to a (re)connect handshake is a message like any other
+                    i = chooser.choose("wire-handshake", len(menu_handshake), [(0, 0)] + [(1, 0)] * (len(menu_handshake) - 1))
+                    f = menu_handshake[i]
+                    state["faults"].append("hs-" + f if f != "deliver" else f)
+                    c = sock.peer
+                    if f == "lost":
+                        return None
+                    if f == "reset":
+                        reset_pair(c)
+                        return None
+                    if f == "cut:10":
+                        c.buf.extend(data[:10])
+                        c.bytes_in += 10
+                        reset_pair(c)
+                        return None
+                    return data
                 if mtype not in (protocol.MSG_RESULT,):
                     return data
                 f = state["pending"].pop(sock.fd, "deliver")
@@ -145,8 +163,7 @@ def make_run(cfg):
                 proxy = client.Proxy(uri)
                 proxy._pyroTimeout = 5.0
                 proxy._pyroMaxRetries = retries
-                proxy._pyroBind()
-                proxy._pyroSeq = cfg["seq0"]
+                proxy._pyroSeq = cfg["seq0"]       # (not connected yet: the first call connects, and that handshake can be hit as well)
                 for i, kind in enumerate(history):
                     token = "t%d" % i
                     sock_before = proxy._pyroConnection.sock if proxy._pyroConnection else None
@@ -179,6 +196,8 @@ def make_run(cfg):
             for name, x in w.sch.errors:
                 V("uncaught-in-thread|%s|%s" % (name.split("-")[0], type(x).__name__), "%r" % x)
             nfaults = sum(1 for f in state["faults"] if f != "deliver")
+            calls = [rec for rec in results if rec[0] != "finals"]
+            last_failed_comm = bool(calls) and calls[-1][2][0] == "exc" and isinstance(calls[-1][2][1], errors.CommunicationError)
             for rec in results:
                 if rec[0] == "finals":
                     finals = rec[1]
@@ -187,6 +206,11 @@ def make_run(cfg):
                         V("proxy-does-not-recover", "after the faults stopped the final calls gave %s" % show(finals, 300))
                     elif len(finals) == 2 and not isinstance(finals[0][1], errors.CommunicationError):
                         V("final-call-wrong-failure|%s" % type(finals[0][1]).__name__, "%s" % show(finals, 300))
+                    elif len(finals) == 2 and last_failed_comm:
+                        # the proxy had just reported a communication error: it knows the connection is gone, so the very next call over
+                        # the healthy transport must be served (a failure is only excusable when the proxy could not know, e.g. a reset
+                        # after a oneway call that returned normally)
+                        V("proxy-does-not-recover|second-failure-after-reported-communication-error", "the last call of the history failed with a communication error, then %s" % show(finals, 300))
                     elif last[1] != "final%d" % (len(finals) - 1):
                         V("foreign-reply-returned|final", "final call returned %r" % (last[1],))
                     continue
@@ -275,12 +299,12 @@ def run(ctx):
         stats,
         rule="call histories (all of length 1-2 over {normal, raising, oneway, batch of two, attribute read, stream fetch}, plus histories with a oneway batch followed by re-use of the same BatchProxy, selected/all of length 3) on one proxy x MAX_RETRIES "
              "{0,1,2} x initial sequence number {0, 0xFFFE} x server type; for every request the wire adversary's decision {deliver, reply lost (timeout), reset before / "
-             "after processing, reply cut at header/payload offsets + reset, stale reply replayed, sequence number rewritten, reply duplicated} is a choice; all fault "
+             "after processing, reply cut at header/payload offsets + reset, stale reply replayed, sequence number rewritten, reply duplicated} and for every handshake answer {deliver, lost, reset, cut+reset} is a choice; all fault "
              "scripts with at most p faults (p per config, 1-2) are enumerated together with the message-level interleavings they induce; oracle: token ownership, per-token "
              "execution counters, oneway reads nothing, recovery of the proxy once the transport is healthy; distinct = distinct (fault script, outcomes, counters)",
         extra={"configs": len(cfgs), "budgets_p_r": sorted({(c["p"], c["r"]) for c in cfgs}), "bound_completed": "every execution within each configuration's (preemption, reordering) budget was run to completion"})
     return {"violations": stats.violations, "coverage": cov,
-            "assumptions": ["faults act on whole protocol messages (fragmentation is C06/C17's subject)", "handshake messages are delivered faithfully",
+            "assumptions": ["faults act on whole protocol messages (fragmentation is C06/C17's subject)", "the client's CONNECT request is delivered faithfully; the daemon's handshake answer can be lost, cut or reset like any reply",
                             "a lost reply surfaces through the proxy's own timeout (virtual: fires when nothing else can run)"]}
 
 
